@@ -11,6 +11,8 @@ for P in "$@"; do
   VERIF_REPO="$WT" ./check "$P" --tier "$TIER" 2>&1 | grep -v "^WARNING conda" | grep -E "VIOLATION|KNOWN-FINDING|tier=|Traceback|Error" | cut -c1-400
   if ls replays/$P-* >/dev/null 2>&1; then
     echo "--- replay:"; head -c 1500 replays/$P-*; echo
+    if [ -n "${SEED_REPLAY_DIR:-}" ]; then mkdir -p "$SEED_REPLAY_DIR"; cp replays/$P-* "$SEED_REPLAY_DIR"/; fi
+    rm -f replays/$P-*
   fi
 done
 rm -rf "$COPY"
